@@ -341,7 +341,7 @@ func c01TagClass(c *c01Case, B int) string {
 // c01CheckChunked: one (file, B, reader kind).
 func c01CheckChunked(env *Env, c *c01Case, B int, variant string, starts map[int]bool) {
 	data := []byte(c.Text)
-	cl := c01TagClass(c, B)  // coverage class: where the first buffer ends
+	cl := c01TagClass(c, B)   // coverage class: where the first buffer ends
 	fcl := c.Fmt + "/chunked" // violation class
 	rc := *c
 	rc.B, rc.Variant, rc.Stage = B, variant, "chunked"
